@@ -203,6 +203,33 @@ def gen_mc(name, idx, rng):
 
 
 def gen_rest(cls, idx, rng, tier):
+    if cls == "nesting" and idx % 3 == 2:
+        # context objects kept by the application and entered again under
+        # other enclosing contexts, with commands issued only innermost (an
+        # observer that asks after every step would refresh whatever the
+        # controller remembers about its stack)
+        ops = []
+        inner = []
+        for rep in range(rng.randint(2, 5)):
+            outer = {a: rng.randrange(3) if a in "xy" else
+                     rng.randrange(1, 17) if a == "p" else
+                     rng.choice([30, 31, 32])
+                     for a in rng.sample(["x", "y", "p", "app_id"],
+                                         rng.randint(1, 3))}
+            ops.append(("enter", outer, False, False, False))
+            if inner and rng.random() < .7:
+                ops.append(("reenter", rng.choice(inner), True, False))
+            else:
+                args = {a: rng.randrange(3) if a in "xy" else
+                        rng.randrange(1, 17)
+                        for a in rng.sample(["x", "y", "p"],
+                                            rng.randint(1, 2))}
+                inner.append(len(ops) - rep - 1 + len(inner))
+                ops.append(("enter", args, False, True, False))
+                inner[-1] = sum(1 for o in ops if o[0] == "enter") - 1
+            ops.append(("exit",))
+            ops.append(("exit",))
+        return dict(kind="nesting", ops=ops)
     if cls == "nesting":
         ops = []
         depth = 0
@@ -628,15 +655,23 @@ def run_nesting(case, ctx):
                     d = dict(op[1]) if not op[2] else \
                         {"app_id": op[1].get("app_id", 66)}
                     pool.append((c, d))
+                # ops may say where to look (5-tuple enter / 4-tuple
+                # reenter); older forms look everywhere
+                if op[0] == "enter":
+                    p_in, p_out = (op[3], op[4]) if len(op) > 3 else (1, 1)
+                else:
+                    p_in, p_out = (op[2], op[3]) if len(op) > 2 else (1, 1)
                 depth_before = len(model)
                 model.append(d)
                 try:
                     with c:
-                        probe()
+                        if p_in:
+                            probe()
                         i = enter(i)
                 finally:
                     del model[depth_before:]
-                probe()
+                if p_out:
+                    probe()
             elif op[0] == "exit":
                 if len(model) > 1:
                     return i
